@@ -5,6 +5,7 @@ import (
 	"bufio"
 	"encoding/json"
 	"fmt"
+	"hash/fnv"
 	"os"
 	"path/filepath"
 	"regexp"
@@ -42,6 +43,7 @@ type Run struct {
 	samples           []interface{}
 	sampleCap         int
 	distinct          map[string]map[string]struct{}
+	distinctH         map[string]map[uint64]struct{}
 	viol              map[string]*violation
 	known             map[string]string // sig -> text
 	knownHit          map[string]*violation
@@ -64,7 +66,7 @@ func envInt(k string, d int) int {
 func New(prop, tier, level string) *Run {
 	r := &Run{Prop: prop, Tier: tier, Level: level, Seed: envInt("VERIF_SEED", 0), start: time.Now(),
 		cov: map[string]interface{}{}, counters: map[string]int64{}, sampleCap: 6,
-		distinct: map[string]map[string]struct{}{}, viol: map[string]*violation{},
+		distinct: map[string]map[string]struct{}{}, distinctH: map[string]map[uint64]struct{}{}, viol: map[string]*violation{},
 		known: map[string]string{}, knownHit: map[string]*violation{}, Exhaustive: true}
 	r.loadKnown()
 	if os.Getenv("VERIF_WORKER") == "" {
@@ -132,6 +134,21 @@ func (r *Run) Set(key string, v interface{}) {
 
 // Distinct records key in the named distinct-set; the set size is reported.
 func (r *Run) Distinct(set, key string) {
+	if set == "nontrivial" || set == "states" {
+		// these grow to tens of millions of members in the thorough tiers and are only ever counted: keep a 64-bit hash
+		h := fnv.New64a()
+		h.Write([]byte(key))
+		v := h.Sum64()
+		r.mu.Lock()
+		m := r.distinctH[set]
+		if m == nil {
+			m = map[uint64]struct{}{}
+			r.distinctH[set] = m
+		}
+		m[v] = struct{}{}
+		r.mu.Unlock()
+		return
+	}
 	r.mu.Lock()
 	m := r.distinct[set]
 	if m == nil {
@@ -145,7 +162,7 @@ func (r *Run) Distinct(set, key string) {
 func (r *Run) DistinctCount(set string) int {
 	r.mu.Lock()
 	defer r.mu.Unlock()
-	return len(r.distinct[set])
+	return len(r.distinct[set]) + len(r.distinctH[set])
 }
 
 func (r *Run) Sample(s interface{}) {
@@ -225,6 +242,9 @@ func (r *Run) Finish() int {
 		cov[k] = v
 	}
 	for k, v := range r.distinct {
+		cov["distinct_"+k] = len(v)
+	}
+	for k, v := range r.distinctH {
 		cov["distinct_"+k] = len(v)
 	}
 	for k, v := range r.cov {
@@ -342,6 +362,7 @@ func Yield() { time.Sleep(200 * time.Microsecond) }
 type Snapshot struct {
 	Counters   map[string]int64    `json:"c"`
 	Distinct   map[string][]string `json:"d"`
+	DistinctH  map[string][]uint64 `json:"h"`
 	Samples    []interface{}       `json:"s"`
 	Notes      []string            `json:"n"`
 	Exhaustive bool                `json:"e"`
@@ -359,6 +380,14 @@ func (r *Run) Snapshot() Snapshot {
 			s.Distinct[k] = append(s.Distinct[k], x)
 		}
 	}
+	s.DistinctH = map[string][]uint64{}
+	for k, m := range r.distinctH {
+		l := make([]uint64, 0, len(m))
+		for x := range m {
+			l = append(l, x)
+		}
+		s.DistinctH[k] = l
+	}
 	return s
 }
 
@@ -373,6 +402,16 @@ func (r *Run) Merge(s Snapshot) {
 		if m == nil {
 			m = map[string]struct{}{}
 			r.distinct[k] = m
+		}
+		for _, x := range l {
+			m[x] = struct{}{}
+		}
+	}
+	for k, l := range s.DistinctH {
+		m := r.distinctH[k]
+		if m == nil {
+			m = map[uint64]struct{}{}
+			r.distinctH[k] = m
 		}
 		for _, x := range l {
 			m[x] = struct{}{}
